@@ -974,6 +974,9 @@ def norm(t):
         return t[1]
     if k == 'field' and t[2] == '0' and isinstance(t[1], tuple) and t[1] and t[1][0] in ('bin', 'const'):
         return t[1]
+    if k == 'field' and isinstance(t[2], str) and t[2].isdigit() and isinstance(t[1], tuple) and t[1][:1] == ('agg',) and isinstance(t[1][1], str) \
+            and (t[1][1].startswith('adt:') or t[1][1] == 'tuple') and not t[1][1].startswith('adt:std::option') and int(t[2]) < len(t[1][2]):
+        return t[1][2][int(t[2])]    # positional field of a struct / tuple literal (`Cursor(x).0` is x)
     if k == 'bin' and t[2][:1] == ('const',) and t[3][:1] == ('const',) and len(t[2]) == 2 and len(t[3]) == 2 and isinstance(t[2][1], int) and isinstance(t[3][1], int):
         a, b = t[2][1], t[3][1]
         try:
@@ -1321,6 +1324,8 @@ def _opt_view(facts, t, spec=None, depth=0):
         for a, p in inner:
             r = closure_apply(facts, args[1], [p], spec)
             v2 = opt_view(facts, r, spec, depth + 1) if r is not None else None
+            if v2 is None and isinstance(r, tuple) and r[:1] == ('call',) and not has_unknown(r):
+                v2 = _opaque_opt(norm(r))   # an Option-returning call the algebra cannot open: Some exactly when it says so
             if v2 is None:
                 return None
             for a2, p2 in v2:
